@@ -676,6 +676,17 @@ func c20masks(xs []uint64) string {
 // K1
 // ---------------------------------------------------------------------------
 
+// c20parse calls cronParseSpec through the export; a panic inside it is reported, not propagated
+func c20parse(r *Result, text string) (spec node.VerifCronSpec, err error) {
+	defer func() {
+		if p := recover(); p != nil {
+			r.Violation("C20/parser-panic", fmt.Sprintf("cronParseSpec panicked on %q: %v", text, p), map[string]interface{}{"spec": text})
+			err = fmt.Errorf("panic: %v", p)
+		}
+	}()
+	return node.VerifCronParseSpec(text)
+}
+
 type c20k1case struct {
 	spec  cSpec
 	text  string
@@ -727,7 +738,7 @@ func c20K1(c *Ctx) {
 			}
 		}
 		text := s.String()
-		impl, err := node.VerifCronParseSpec(text)
+		impl, err := c20parse(r, text)
 		if err != nil {
 			r.Violation("C20/valid-spec-rejected", fmt.Sprintf("spec %q is inside the grammar but cronParseSpec returned %v", text, err), map[string]interface{}{"spec": text})
 			continue
@@ -887,7 +898,7 @@ func c20K1Parser(c *Ctx) {
 		return
 	}
 	for i, p := range pc {
-		impl, ierr := node.VerifCronParseSpec(p.text)
+		impl, ierr := c20parse(r, p.text)
 		r.Case("parse:"+p.text, p.valid != 1)
 		r.Count("parser." + p.why)
 		if ierr == nil {
